@@ -6,8 +6,8 @@
 (* L2 (implementation-shaped, transcribed from _insert_pt_in_latlonbox and *)
 (* _get_latlonbox_width): a box <<lo, hi>> that runs eastward from lo to   *)
 (* hi, wrapping through 0 when lo > hi.  A new longitude that is not in    *)
-(* the box replaces lo or hi, whichever gives the narrower box (hi on a    *)
-(* tie).  Points arrive one at a time, in ANY order, repeats allowed.      *)
+(* the box replaces lo or hi, whichever gives the narrower box (either on  *)
+(* a tie).  Points arrive one at a time, in ANY order, repeats allowed.    *)
 (*                                                                         *)
 (* L1 (declarative): the shortest eastward interval with ends in the set   *)
 (* that covers the set.                                                    *)
@@ -39,15 +39,16 @@ Half  == M \div 2
 Width(lo, hi) == IF lo <= hi THEN hi - lo ELSE M - lo + hi
 NeedsGrowth(lo, hi, p) == \/ (lo > hi /\ (p < lo /\ p > hi))
                           \/ (lo <= hi /\ ~(lo <= p /\ p <= hi))
+\* the set of boxes one insertion may produce: the code compares two float widths with "<", so an exact
+\* tie (possible only at half a circle and beyond) is broken by rounding -- either end may move
 Insert(b, p) ==
-    IF b = Empty THEN <<p, p>>
-    ELSE IF ~NeedsGrowth(b[1], b[2], p) THEN b
+    IF b = Empty THEN { <<p, p>> }
+    ELSE IF ~NeedsGrowth(b[1], b[2], p) THEN { b }
     ELSE LET wa == Width(p, b[2])
              wb == Width(b[1], p)
-         IN IF wa < wb THEN <<p, b[2]>> ELSE <<b[1], p>>
-\* replay of a whole insertion sequence (used to validate recorded traces of the real helper)
-RECURSIVE Fold(_, _, _)
-Fold(b, s, k) == IF k > Len(s) THEN <<>> ELSE <<Insert(b, s[k])>> \o Fold(Insert(b, s[k]), s, k + 1)
+         IN IF wa < wb THEN { <<p, b[2]>> }
+            ELSE IF wb < wa THEN { <<b[1], p>> }
+            ELSE { <<p, b[2]>>, <<b[1], p>> }
 
 (* ---- L1 ------------------------------------------------------------------ *)
 East(a, b)        == (b - a + M) % M                 \* eastward distance from a to b
@@ -61,7 +62,7 @@ Extent(S)         == East((CHOOSE b \in Shortest(S) : TRUE)[1], (CHOOSE b \in Sh
 Init == ins = {} /\ box = Empty
 Next == \E p \in Lon : /\ Cardinality(ins \cup {p}) <= NMax
                        /\ ins' = ins \cup {p}
-                       /\ box' = Insert(box, p)
+                       /\ box' \in Insert(box, p)
 
 TypeOK == /\ ins \subseteq Lon
           /\ (box = Empty /\ ins = {}) \/ (box \in ins \X ins)
